@@ -10,8 +10,10 @@ for f in sorted(glob.glob(os.path.join(os.path.dirname(os.path.abspath(__file__)
         if r.get(tier, {}).get("detected"):
             det = tier + (" (no-failing-input-found)" if r[tier].get("no_failing_input_found") else " (failing input)")
             break
+    if det == "missed" and any(v.get("not_evaluated") for v in r.values() if isinstance(v, dict)):
+        det = "not evaluated: " + [v["not_evaluated"] for v in r.values() if isinstance(v, dict) and v.get("not_evaluated")][0]
     what = re.sub(r"\s+", " ", m.get("what", ""))[:150]
-    needs = re.sub(r"\s+", " ", m.get("needs", ""))[:130]
+    needs = re.sub(r"\s+", " ", str(m.get("needs", "")))[:130]
     note = m.get("history", "")
     rows.append("| %s | %s | %s | %s%s |" % (m.get("id"), what.replace("|", "/"), needs.replace("|", "/"), det, (" — " + note) if note else ""))
 print("| id | change | needs | caught by `./check` |")
